@@ -1,9 +1,16 @@
-(* C17: formatting is idempotent.  The full statement on the model (C17_statement, front/FmtFacts.v) is FALSE, as it is of
-   the code: the [flags] text of the known finding is formatted to an output that a second pass changes again. *)
-Require Import Bebop.front.Tok Bebop.front.Parse Bebop.front.Fmt Bebop.front.FmtFacts.
+(* C17: formatting is idempotent.  The full statement on the model is C17_statement (front/FmtFacts.v).  Decided by the
+   correspondence run (format twice, compare bytes; model compared byte for byte).  Until the formatter was repaired the
+   statement was false ([flags] text); with the repairs mirrored in the model the former witnesses are fixed points after one
+   pass.  No general proof exists.  Proved: the instances, and that the second pass never panics either. *)
+Require Import Bebop.front.Tok Bebop.front.Parse Bebop.front.Fmt Bebop.front.FmtFacts Bebop.front.FmtSafe.
 
-Definition C17_refuted_statement : Prop := ~ C17_statement /\ not_fixed_point w_flags.
+Definition C17_partial_statement : Prop :=
+  (forall input y s, format input = POk y s -> format y <> PPanic) /\
+  holds17 w_typed_enum /\ holds17 w_array2 /\ holds17 w_import /\ holds17 w_flags.
 
-Theorem C17_refuted : C17_refuted_statement.
-Proof. split; [exact (not_fixed_refutes _ flags_not_fixed)|exact flags_not_fixed]. Qed.
-Print Assumptions C17_refuted.
+Theorem C17_partial : C17_partial_statement.
+Proof.
+  split; [intros input y s _; exact (format_never_panics y)|].
+  split; [exact typed_enum_17|]. split; [exact array2_17|]. split; [exact import_17|exact flags_17].
+Qed.
+Print Assumptions C17_partial.
